@@ -27,6 +27,9 @@ def run(ctx):
     from ..report import reuse as _reuse
     from . import c08 as _c08
     _reuse(ctx, lambda c: _c08.inf_rule(c), ("C08.inf",), "C09w", "incremental-weight rule shared with C08: a NaN weight makes log_weights raise inside determine_beta / resample")
+    from . import c05 as _c05
+    _reuse(ctx, _c05.temp_rule, ("C05.temp",), "C09site", "call-site rule shared with C05: the temperature handed to resample() is the end of the move the incremental weights are computed for, "
+           "and the one the resampled population is labelled with -- it must be the temperature the kernel then targets")
     S = repo.cls("aspire.samples:SMCSamples")
     m = S.resolve("resample")
     if m is None:
@@ -211,6 +214,7 @@ MUTANTS = [
     M("early return ignores size", _S, "if beta == self.beta and n_samples is None:", "if beta == self.beta:", "C09.same"),
 ]
 MUTANTS += [
+    M("final enlargement resampled at the loop's last temperature", "src/aspire/samplers/smc/base.py", "final_samples = samples.resample(\n                1.0, n_samples=n_final_samples, rng=self.rng\n            )", "final_samples = samples.resample(\n                beta, n_samples=n_final_samples, rng=self.rng\n            )", "C09site"),
     M("restored population relabelled as beta 0", "src/aspire/samplers/smc/base.py", "samples, beta, iterations = self.restore_from_checkpoint(\n                resume_from\n            )", "samples, beta, iterations = self.restore_from_checkpoint(\n                resume_from\n            )\n            samples = SMCSamples.from_samples(samples, xp=self.xp, beta=0.0, dtype=self.dtype)", "C09.label"),
     M("weights only for the default size", _S, "log_w = self.log_weights(beta)\n        w = to_numpy(self.xp.exp(log_w - logsumexp(log_w)))\n        idx = rng.choice(len(self.x), size=n_samples, replace=True, p=w)", "w = None\n        if n_samples == len(self.x):\n            log_w = self.log_weights(beta)\n            w = to_numpy(self.xp.exp(log_w - logsumexp(log_w)))\n        idx = rng.choice(len(self.x), size=n_samples, replace=True, p=w)", "C09.p"),
 ]
